@@ -28,13 +28,13 @@ LEVEL = "proof"
 EXTRA_PROPS = ["QuantemModel.Props.C17Ext"]   # growth 6: closed boundary of Itoh, orientation symmetry, wrap_around flipped on one grid
 MANIFEST_ENTRY = {
     "category": "proof",
-    "text": "Lean 4 theorems over an executable model of the reliability-sorting unwrapper (edge construction for bounded/periodic grids with masks, union-find with offsets exactly as UnionFindPhase: no path compression, union by rank, the code's sign conventions; final offsets; mean removal; the bright-field embedding) and of the PUBLIC entry points with their argument handling (dispatch on method, phi.shape unpacking, the mask entering through broadcasting and flat indexing, value lengths and the lazily validated method of unwrap_bf_overlap_phase_torch) including the exception type of every rejected call. The merge ORDER is an input of the model, so every theorem holds for every order the float reliability sort could produce. Proved for all sizes, masks, edge multigraphs (self-loops/duplicates included) and orders: termination of find (rank strictly increases to the root), the offset-consistency invariant (every stored offset is n(pixel)-n(parent) for any integer field the increments are differences of), Itoh => increments are wrap-count differences (over the reals, threshold pi), hence out - truth is constant on every connected component of the masked edge graph; out - input is in 2*pi*Z plus one constant for every input; smooth unwrapped input is returned up to one constant; same-tree edges are no-ops; the grid-level body of unwrap_bf_overlap_phase_torch (mask test, max-min>pi test, one or two passes) returns the truth up to a constant per connected overlap region in every branch; the model's edge graph is the 4-neighbour graph (bounded and periodic; the periodic edge list is characterised as a multiset for every HxW incl. H or W in {1,2}: self-loops / double edges exactly there); the input is taken raw: recovery holds for any representative of the truth whose neighbouring wrap counts are at most one apart (any 2*pi window such as [0,2pi), partially or fully unwrapped input), with a counterexample two cycles apart; the result is independent of the reliability (any comparison function used for the sort, any wrap function inside _pixel_reliability); the whole unwrap_bf_overlap_phase_torch incl. scatter phase_grid[bf_mask]=... and gather is correct entry by entry, for every number of images. Growth 5, over HISTORIES including calls that raise: a well-formed call (2-D phase, no mask or a mask of the grid's shape) never raises, never diverges and is correct (call_valid_correct: total correctness of the public entry point); in ANY history of calls on the module, valid and rejected ones in any order, every well-formed call returns what it returns alone, i.e. the truth up to a constant per region (session_exception_safe, session_pointwise); the rejected calls by exception type (rejected_calls: unknown method / non-2-D phase ValueError, Poisson on a bounded grid NotImplementedError, non-broadcastable mask RuntimeError, a mask that broadcasts but has fewer elements than the grid IndexError, never silently broadcast); after ANY history of union calls on one UnionFindPhase object, calls with an index past the end included, exactly those raise, they leave the object untouched (state = state after the accepted calls alone), the forest/termination/offset invariants hold (uf_history_invariant); unwrap_bf_overlap_phase_torch with right-length values is the modelled function, an unknown method either raises or (no pass needed) returns exactly what the valid method returns, wrong-length values are a RuntimeError (bf_args_spec). _pixel_reliability (wrapped second differences, periodic rolls) and the sort are modelled exactly and the real edge ORDER is checked to be ascending in the model's exact rational reliabilities. The model is tied to the code on every run by exact differential streams (edge multisets, union-find final offsets on the real edge order, end-to-end fields, bf-overlap embedding, call histories with rejected and fault-injected calls run before anything else has called the module, union-find and bf histories) and the property predicate is evaluated on the real outputs of every valid call, inside and outside histories, with an independent connected-component / wrap-count oracle.",
+    "text": "Lean 4 theorems over an executable model of the reliability-sorting unwrapper (edge construction for bounded/periodic grids with masks, union-find with offsets exactly as UnionFindPhase: no path compression, union by rank, the code's sign conventions; final offsets; mean removal; the bright-field embedding) and of the PUBLIC entry points with their argument handling (dispatch on method, phi.shape unpacking, the mask entering through broadcasting and flat indexing, value lengths and the lazily validated method of unwrap_bf_overlap_phase_torch) including the exception type of every rejected call. The merge ORDER is an input of the model, so every theorem holds for every order the float reliability sort could produce. Proved for all sizes, masks, edge multigraphs (self-loops/duplicates included) and orders: termination of find (rank strictly increases to the root), the offset-consistency invariant (every stored offset is n(pixel)-n(parent) for any integer field the increments are differences of), Itoh => increments are wrap-count differences (over the reals, threshold pi), hence out - truth is constant on every connected component of the masked edge graph; out - input is in 2*pi*Z plus one constant for every input; smooth unwrapped input is returned up to one constant; same-tree edges are no-ops; the grid-level body of unwrap_bf_overlap_phase_torch (mask test, max-min>pi test, one or two passes) returns the truth up to a constant per connected overlap region in every branch; the model's edge graph is the 4-neighbour graph (bounded and periodic; the periodic edge list is characterised as a multiset for every HxW incl. H or W in {1,2}: self-loops / double edges exactly there); the input is taken raw: recovery holds for any representative of the truth whose neighbouring wrap counts are at most one apart (any 2*pi window such as [0,2pi), partially or fully unwrapped input), with a counterexample two cycles apart; the result is independent of the reliability (any comparison function used for the sort, any wrap function inside _pixel_reliability); the whole unwrap_bf_overlap_phase_torch incl. scatter phase_grid[bf_mask]=... and gather is correct entry by entry, for every number of images. Growth 5, over HISTORIES including calls that raise: a well-formed call (2-D phase, no mask or a mask of the grid's shape) never raises, never diverges and is correct (call_valid_correct: total correctness of the public entry point); in ANY history of calls on the module, valid and rejected ones in any order, every well-formed call returns what it returns alone, i.e. the truth up to a constant per region (session_exception_safe, session_pointwise); the rejected calls by exception type (rejected_calls: unknown method / non-2-D phase ValueError, Poisson on a bounded grid NotImplementedError, non-broadcastable mask RuntimeError, a mask that broadcasts but has fewer elements than the grid IndexError, never silently broadcast); after ANY history of union calls on one UnionFindPhase object, calls with an index past the end included, exactly those raise, they leave the object untouched (state = state after the accepted calls alone), the forest/termination/offset invariants hold (uf_history_invariant); unwrap_bf_overlap_phase_torch with right-length values is the modelled function, an unknown method either raises or (no pass needed) returns exactly what the valid method returns, wrong-length values are a RuntimeError (bf_args_spec). _pixel_reliability (wrapped second differences, periodic rolls) and the sort are modelled exactly and the real edge ORDER is checked to be ascending in the model's exact rational reliabilities. The model is tied to the code on every run by exact differential streams (edge multisets, union-find final offsets on the real edge order, end-to-end fields, bf-overlap embedding, call histories with rejected and fault-injected calls run before anything else has called the module, union-find and bf histories) and the property predicate is evaluated on the real outputs of every valid call, inside and outside histories, with an independent connected-component / wrap-count oracle. Growth 6 (Props/C17Ext.lean): _find_wrap characterised exactly (iff for each of -1/0/+1; a stored difference of exactly +-pi gets 0; exchanging the two pixels negates the increment), already-unwrapped input with neighbour differences <= pi (closed bound) returned up to one constant, a literal counterexample showing that < pi cannot be weakened for wrapped input, the bounded neighbour graph is a subgraph of the periodic one and the seam pairs are exactly what wrap_around=True adds, every bounded mask region lies in one periodic region, two calls on one grid that differ only in wrap_around agree up to one constant on every bounded mask region (any merge orders), and a literal witness of a region held together only by the seam.",
     "note": "Trusted: Lean kernel + propext/Classical.choice/Quot.sound; hand model validated by sampled correspondence only; torch indexing/roll/argsort/where/broadcasting semantics; IEEE rounding (inputs are dyadic multiples of pi kept >= 2^-6*pi away from the +-pi thresholds so no float comparison is decided by rounding; the real code keeps offsets in float32, measured deviation from the exact model is reported); argsort ties may come out in any order (the model's stable merge sort is one admissible outcome; the order stream uses phases on a pi/16 grid so that distinct reliabilities are far apart); the Poisson method is outside the claim (only its dispatch and its explicit NotImplementedError are modelled); the caller's loop over images (direct_ptychography.py) is reproduced by the harness, not executed through DirectPtychography. Measured only: that the module really keeps no state between calls (the model says so by construction; the history stream compares every call of real histories with it); exception types of malformed arguments whose rejection is incidental (torch indexing / broadcasting / unpacking) are recorded and noted, not alarmed on - only the explicit raises (unknown method, Poisson bounded) are compared strictly; torch view semantics for negative pixel indices in UnionFindPhase (never produced by the unwrapper) are outside the model. Private helpers and UnionFindPhase internals are resolved defensively: if renamed / inlined / merged the internal-stage streams are skipped with a note (coverage.internal_stage_notes) and the public-API comparison decides; parent/rank/offset arrays are compared as an internal representation (a difference with equal final offsets is noted, not alarmed on).",
     "technique": "Lean 4 proof (forest/rank invariant, offset telescoping, Itoh lemma over R) + exact model-vs-implementation correspondence",
 }
 RULE = ("generated phase fields (ramps, quadratics, Gaussian bumps, band-limited random, periodic, raw non-smooth, "
         "already-unwrapped, stored in [-pi,pi), [0,2pi), a shifted window or partially unwrapped) on grids up to 24x24 (medium 40..64 per side, "
-        "float16 up to 60x60, long thin up to 3x900, seam-only-connected bands on periodic non-square grids with H or W in {1,2}) with masks (none, rectangle, annulus, multi-component, blobs with holes, "
+        "float16 up to 60x60, long thin up to 3x900, two fixed grids above 2**14 px (130x130, 150x120 annulus), fixed descending / one-axis fields on 8 shapes with H != W, fixed wrap_around-flip histories,  seam-only-connected bands on periodic non-square grids with H or W in {1,2}) with masks (none, rectangle, annulus, multi-component, blobs with holes, "
         "sparse, border-touching) and wrap_around on/off, float16/32/64; a case is one call of the real unwrapper "
         "(or one union-find run / one _build_edges call / one reliability+order comparison / one stack of bf images / one rejected call inside a history; histories: 96+ per run on grids of their own, reject kind x wrap_around x template enumerated, each with 4..7 valid calls; input classes per call: memory layout, mask dtype and truthy-value class, autograd leaf/non-leaf, method literal/default/run-time string, wrap_around bool/int/numpy bool); distinct non-trivial = distinct (stream, field kind, mask kind, "
         "wrap, dtype, H, W, #mask components bucket, wrap-count range) among cases whose field really wraps "
@@ -43,7 +43,8 @@ TRUSTED = ["torch tensor indexing / roll / where / argsort / stack / broadcastin
            "fault injection through a torch.Tensor subclass (__torch_function__ raising at the k-th operation): assumes the subclass is otherwise transparent",
            "IEEE rounding: inputs are dyadic multiples of pi kept >= 2^-6*pi from the +-pi thresholds; offsets are float32 in the code, exact integers in the model",
            "_pixel_reliability only determines the merge order (theorems: any order); it is modelled exactly and compared (values to tolerance, order exactly) on a pi/16 phase grid"]
-ASSUMPTIONS = ["histories: grids 2..13 x 2..13 with H != W, one grid shape per history (132 shapes, then reused); a history is replayed from its first step",
+ASSUMPTIONS = ["histories: grids 2..13 x 2..13 with H != W, one grid shape per history (132 shapes, then reused); a history is replayed from its first step; growth 6: 8 fixed histories on grids of their own (14x17, 17x14, 15x3, 3x16, 16x15, 2x14, 14x1, 15x18) alternate wrap_around between valid calls (periodic first / bounded first), the periodic calls on a mask region connected only across the seam",
+               "growth 6 fixed blocks (independent of VERIF_SEED): 72 small cases (8 shapes with H != W both ways x descending / one-axis ramps, pit, periodic sin / cos with negative truth), 2 grids above 2**14 pixels per quick run (130x130 without a mask, 150x120 with an annulus mask, bounded steep fields; thorough: 4) - above 6000 px the edge multiset, the union-find state and the final offsets on the real order are compared exactly, the assembled output only by the predicate",
                "malformed arguments are outside the documented domain: how they are rejected is recorded (input_distribution history:rejected-call:*), compared with the model, and a difference is a note, not an alarm; every valid call after them is checked at full strength",
                "grids <= 24x24 in the correspondence, plus a few 40..64 x 40..64 grids per run, a few float16 fields on 46..60 x 46..60 grids and long thin grids (1..3 x 300..900 and transposed, wrap counts past 127/255; thorough: one 1 x 74000 ramp past 32767) (theorems: all sizes)",
                "Itoh is required on the edges actually used (inside the mask, including periodic seam edges when wrap_around=True); values outside the mask are arbitrary",
@@ -2212,7 +2213,9 @@ def run(ctx):
             eval_unwrap_case(ctx, drv, c, stream="g6-small")
         g6_secs["small"] = round(_time.time() - t0, 1)
         t0 = _time.time()
-        for which in range(2 if not ctx.thorough() else 4):
+        # quick: the two BOUNDED steep fields (130 x 130 without a mask, 150 x 120 with an annulus mask): deep union-find
+        # trees with non-zero offsets on every hop (seed C17f-1); thorough: the two periodic ones as well
+        for which in ([0, 2] if not ctx.thorough() else [0, 1, 2, 3]):
             eval_g6_big_case(ctx, drv, g6_big_case(which))
         g6_secs["big"] = round(_time.time() - t0, 1)
         # the seam of exactly one axis; medium grids; the edge order; several images through one bf_mask
